@@ -287,7 +287,14 @@ def register(reg):
     reg.add(Contract(key="OrderedSet.__ge__", file=F, qualname="OrderedSet.__ge__", cls="OrderedSet", params={"self": OS, "other": OS},
                      returns=T.bool, requires=both_inv, ensures=le_ens(True)))
 
-    # ---------------------------------------------------------------- helpers
+    # ---------------------------------------------------------------- helpers (each argument: a list/tuple OR an OrderedSet)
+    def arg_list(c, name):
+        """sequence view of an argument as it was at the call"""
+        v = c.params[name]
+        if isinstance(v, VList):
+            return v
+        return c.eng.list_of(c.old_field(v, "impl"), c.st)
+
     def helper(name, setop):
         def ens(c):
             S = c.S
@@ -297,11 +304,11 @@ def register(reg):
             if not (isinstance(r, VScalar) and r.ty.kind == "obj"):
                 return [("returns-an-OrderedSet", z3.BoolVal(False))]
             new = c.field(r, "impl")
-            ma, fa = first_of(c, c.params["a"])
-            mb, fb = first_of(c, c.params["b"])
+            ma, fa = first_of(c, arg_list(c, "a"))
+            mb, fb = first_of(c, arg_list(c, "b"))
             x = z3.Const(fresh_name("x"), S.Atom)
             y = z3.Const(fresh_name("y"), S.Atom)
-            out = [("invariant", inv(S, new)), ("members", new.dom == setop(ma, mb)), ("frame", frame_others(c, [r])),
+            out = [("invariant", inv(S, new)), ("members", new.dom == setop(ma, mb)), ("arguments-and-all-other-sets-unchanged", frame_others(c, [r])),
                    ("a-elements-in-a-order", z3.ForAll([x, y], z3.Implies(z3.And(new.dom[x], new.dom[y], ma[x], ma[y]), (new.pos[x] < new.pos[y]) == (fa(x) < fa(y)))))]
             if name == "ordered_union":
                 out.append(("a-before-b-only", z3.ForAll([x, y], z3.Implies(z3.And(ma[x], mb[y], z3.Not(ma[y])), new.pos[x] < new.pos[y]))))
@@ -309,18 +316,12 @@ def register(reg):
             return out
         return ens
 
-    reg.add(Contract(key="ordered_intersect", file=F, qualname="ordered_intersect", params={"a": SEQ, "b": SEQ}, returns=OS,
-                     ensures=helper("ordered_intersect", z3.SetIntersect), modifies=(("OrderedSet", "impl"),), fresh_result=True))
-    reg.add(Contract(key="ordered_diff", file=F, qualname="ordered_diff", params={"a": SEQ, "b": SEQ}, returns=OS,
-                     ensures=helper("ordered_diff", z3.SetDifference), modifies=(("OrderedSet", "impl"),), fresh_result=True))
-
     def union_loop(c):
         S = c.S
         a_obj = c.var("a")
         d = c.field(a_obj, "impl")
         pre = c.pre_field(a_obj, "impl")
-        b = c.params["b"]
-        mem, first = first_of(c, b)
+        mem, first = first_of(c, arg_list(c, "b"))
         x = z3.Const(fresh_name("x"), S.Atom)
         y = z3.Const(fresh_name("y"), S.Atom)
         new = c.heap_parts("OrderedSet", "impl")
@@ -337,8 +338,25 @@ def register(reg):
             ("frame", fr),
         ]
 
-    reg.add(Contract(key="ordered_union", file=F, qualname="ordered_union", params={"a": SEQ, "b": SEQ}, returns=OS,
-                     ensures=helper("ordered_union", z3.SetUnion), loops={0: union_loop}, modifies=(("OrderedSet", "impl"),), fresh_result=True))
+    def arg_inv(c):
+        out = []
+        for nm in ("a", "b"):
+            v = c.params[nm]
+            if isinstance(v, VScalar):
+                out.append(("%s-invariant" % nm, inv(c.S, c.field(v, "impl"))))
+        return out
+
+    for (ta, tb, tag) in ((SEQ, SEQ, ""), (OS, SEQ, "[a=OrderedSet]"), (SEQ, OS, "[b=OrderedSet]"), (OS, OS, "[a,b=OrderedSet]")):
+        names = lambda n: (n,) if tag == "" else ("%s%s" % (n, tag),)
+        reg.add(Contract(key="ordered_intersect" + tag, file=F, qualname="ordered_intersect", params={"a": ta, "b": tb}, returns=OS, requires=arg_inv, names=names("ordered_intersect"),
+                         ensures=helper("ordered_intersect", z3.SetIntersect), modifies=(("OrderedSet", "impl"),), fresh_result=True))
+        reg.add(Contract(key="ordered_diff" + tag, file=F, qualname="ordered_diff", params={"a": ta, "b": tb}, returns=OS, requires=arg_inv, names=names("ordered_diff"),
+                         ensures=helper("ordered_diff", z3.SetDifference), modifies=(("OrderedSet", "impl"),), fresh_result=True))
+        reg.add(Contract(key="ordered_union" + tag, file=F, qualname="ordered_union", params={"a": ta, "b": tb}, returns=OS, requires=arg_inv, names=names("ordered_union"),
+                         ensures=helper("ordered_union", z3.SetUnion), loops={0: union_loop}, modifies=(("OrderedSet", "impl"),), fresh_result=True))
+
+
+HELPER_KEYS = [h + t for h in ("ordered_intersect", "ordered_union", "ordered_diff") for t in ("", "[a=OrderedSet]", "[b=OrderedSet]", "[a,b=OrderedSet]")]
 
 
 def T_varargs(names):
